@@ -15,6 +15,13 @@ const bigW = 128 // math/big values are modelled as signed 128-bit vectors (rang
 
 // toBig widens an integer bit-vector to the big-number width.
 func (e *Exec) toBig(t *Term, signed bool) *Term {
+	if t.sort.K == SInt {
+		// Int mode: only constants cross into the bit-vector model of math/big
+		if !t.IsConst() {
+			panic(pathAbort{"error", "math/big on a symbolic integer is not modelled in Int mode"})
+		}
+		return e.ctx.Const(BV(bigW), t.c)
+	}
 	if signed {
 		return e.ctx.SExt(t, bigW)
 	}
@@ -80,6 +87,20 @@ func init() {
 	}
 	I[B+"SetUint64"] = func(e *Exec, th *Thread, fn *ssa.Function, a []Value) Value {
 		return e.bigSet(a[0], e.toBig(a[1].(*Term), false))
+	}
+	I[B+"SetBytes"] = func(e *Exec, th *Thread, fn *ssa.Function, a []Value) Value {
+		bs, ok := e.concreteBytes(a[1])
+		if !ok {
+			panic(pathAbort{"error", "big.Int.SetBytes on symbolic bytes is not modelled"})
+		}
+		v := new(big.Int).SetBytes(bs)
+		if v.BitLen() > 100 {
+			// outside the modelled range: an unconstrained value, so that any use of
+			// it fails the range obligation instead of computing with a wrong number
+			e.bigHuge++
+			return e.bigSet(a[0], e.ctx.Var(fmt.Sprintf("big.huge#%d", e.bigHuge), BV(bigW)))
+		}
+		return e.bigSet(a[0], e.ctx.Const(BV(bigW), v))
 	}
 	I[B+"Bits"] = func(e *Exec, th *Thread, fn *ssa.Function, a []Value) Value { return SliceV(nil) }
 	I[B+"SetBits"] = func(e *Exec, th *Thread, fn *ssa.Function, a []Value) Value {
@@ -176,7 +197,7 @@ func init() {
 		if x.IsConst() {
 			return x.Signed().String()
 		}
-		return &SymStr{parts: []interface{}{symPart{"%d", x}}}
+		return &SymStr{parts: []interface{}{symPart{verb: "%d", t: x}}}
 	}
 	I[B+"String"] = str
 	I[B+"Text"] = str
